@@ -71,7 +71,8 @@ def cases(tier, seed):
         how = ["handle", "path", "uri"][idx % 3] if idx % 5 == 0 else "handle"
         for part in range(0, len(wins), 50):
             yield "rq.api", {"n": n, "mode": mode, "px": px, "chunk": chunk, "open": how, "wins": wins[part:part + 50],
-                             **({"at": AT[idx % 2]} if idx % 4 == 1 else {})}
+                             **({"at": AT[idx % 2]} if idx % 4 == 1 else {}),
+                             **({"scale": 4} if idx % 6 == 2 else {})}          # float64 counts (multiples of 1/4)
     # API on tables with several chromosomes (index space is what matters; the table must not)
     for name, table in gen.REPRESENTATIVE_TABLES.items():
         n = len(table)
